@@ -137,7 +137,11 @@ func (m absModule) apply(w *world.World) {
 	case "omitted":
 		w.Tcb.Mods, w.Tcb.OmitMods = nil, true
 	case "wrong-id":
+		// other versions, the bare prefix, and — for versions >= 10 — the decimal rendering of the version, which names another module
 		w.Tcb.Mods = []world.ModIdent{{ID: fmt.Sprintf("TDX_%02x", p.TeeTcb[1]+1), Levels: []world.IsvLevel{{Isv: 0, Status: "UpToDate"}}}, {ID: "TDX_", Levels: []world.IsvLevel{{Isv: 0, Status: "UpToDate"}}}}
+		if dec := fmt.Sprintf("TDX_%02d", p.TeeTcb[1]); dec != id {
+			w.Tcb.Mods = append(w.Tcb.Mods, world.ModIdent{ID: dec, Levels: []world.IsvLevel{{Isv: 0, Status: "UpToDate"}}})
+		}
 	case "levels":
 		var ls []world.IsvLevel
 		for _, l := range m.levels {
@@ -194,19 +198,22 @@ func applyIdent(kind string, w *world.World, r *mrand.Rand) {
 }
 
 // c04Base builds the two base worlds (TEE_TCB_SVN[1] = 0 and = n) sharing one platform with room on both sides of every SVN.
-func c04Base(r *mrand.Rand) [2]*world.World {
+func c04Base(r *mrand.Rand) [3]*world.World {
 	p := world.RandPlatform(r)
 	for i := range p.Comp {
 		p.Comp[i] = byte(1 + r.Intn(254))
 		p.TeeTcb[i] = byte(1 + r.Intn(254))
 	}
 	p.PceSvn = uint16(1 + r.Intn(65534))
-	var out [2]*world.World
-	for k := 0; k < 2; k++ {
+	var out [3]*world.World
+	for k := 0; k < 3; k++ {
 		pp := *p
 		pp.TeeTcb[1] = 0
 		if k == 1 {
 			pp.TeeTcb[1] = byte(1 + r.Intn(9))
+		}
+		if k == 2 { // versions whose hexadecimal and decimal renderings differ
+			pp.TeeTcb[1] = []byte{0x0a, 0x10, 0x1f, 0x63, 0xff}[r.Intn(5)]
 		}
 		out[k] = world.Honest(r, world.HonestOpts{Shape: world.QuoteShape{AuthLen: 32}, Platform: &pp})
 	}
@@ -292,16 +299,19 @@ func c04(x *mon.Ctx) {
 	}
 	var jobs []job
 	for _, a := range abs {
-		for k := 0; k < 2; k++ {
+		for k := 0; k < 3; k++ {
 			if k == 0 {
 				jobs = append(jobs, job{0, []absLevel{a}, mods1[0], "match", "1-level/tee1=0"})
 				continue
+			}
+			if k == 2 && x.Quick() && a.status != 0 {
+				continue // versions >= 10: quick tier only against UpToDate platform levels
 			}
 			for _, m := range mods1 {
 				if x.Quick() && m.kind == "levels" && m.levels[0].status > 1 && m.levels[0].status != 4 && a.status != 0 {
 					continue // quick tier: all module statuses only against an UpToDate platform level; {UpToDate, SWHardeningNeeded, OutOfDate} otherwise
 				}
-				jobs = append(jobs, job{1, []absLevel{a}, m, "match", "1-level/tee1=n"})
+				jobs = append(jobs, job{k, []absLevel{a}, m, "match", []string{"", "1-level/tee1=n", "1-level/tee1>=10"}[k]})
 			}
 		}
 	}
@@ -318,7 +328,7 @@ func c04(x *mon.Ctx) {
 	r2 := x.Rand("two")
 	if x.Quick() {
 		for i := 0; i < 12000; i++ {
-			k := r2.Intn(2)
+			k := r2.Intn(3)
 			jobs = append(jobs, job{k, []absLevel{abs[r2.Intn(len(abs))], abs[r2.Intn(len(abs))]}, mods2[r2.Intn(len(mods2))], "match", fmt.Sprintf("2-level/tee1=%d", k)})
 		}
 	} else {
@@ -350,7 +360,7 @@ func c04(x *mon.Ctx) {
 	nr := x.Pick(3000, 200000)
 	x.Each(nr, func(i int) {
 		r := x.Rand(fmt.Sprint("rand", i))
-		k := r.Intn(2)
+		k := r.Intn(3)
 		w := bases[k].Clone()
 		w.Tcb.Levels = nil
 		for n := 3 + r.Intn(4); n > 0; n-- {
@@ -386,8 +396,10 @@ func c04(x *mon.Ctx) {
 	x.Require("identity/attr-diff-hidden-by-mask", 16, 0, 16)
 	x.Require("identity/attr-diff-exposed-by-mask", 0, 16, 16)
 	x.Require("identity/mrsigner-mismatch", 0, 16, 16)
-	x.Require("2-level/tee1=0", 50, 1000, 2000)
-	x.Require("2-level/tee1=1", 5, 1000, 2000)
+	x.Require("2-level/tee1=0", 30, 1000, 2000)
+	x.Require("2-level/tee1=1", 3, 1000, 2000)
+	x.Require("2-level/tee1=2", 3, 1000, 2000)
+	x.Require("1-level/tee1>=10", 5, 100, 300)
 	x.Extra["exhaustive_1_level_space"] = true
 	x.Extra["abstract_levels"] = len(abs)
 	if !x.Quick() {
